@@ -998,6 +998,10 @@ type cliCase struct {
 	// large inputs in compact form (Rows is then empty and filled by the check)
 	BigD *bigRows `json:"bigdedup,omitempty"`
 	BigC *bigCols `json:"bigcompress,omitempty"`
+	// Extra: further alignments behind Rows; the input is then one relaxed Phylip file (-p)
+	Extra   [][]gen.Row `json:"extra,omitempty"`
+	OneLine bool        `json:"oneline"` // --one-line
+	NoBlock bool        `json:"noblock"` // --no-block
 }
 
 func TestCLI(t *testing.T) {
@@ -1025,6 +1029,35 @@ func TestCLI(t *testing.T) {
 			} else {
 				c.Alphabet, c.AlphaFlag = "nt", "nt"
 				c.BigC = genBigCols(t, []int{1023, 1024, 1025, 2048, 2049, 0}, 2100)
+			}
+			return c
+		}
+		if rapid.SampledFrom([]int{0, 0, 0, 0, 0, 1}).Draw(t, "multi") == 1 {
+			// one Phylip file holding 2-3 alignments of different shapes; both commands loop over them
+			c.AlphaFlag = c.Alphabet
+			c.OneLine = rapid.Bool().Draw(t, "oneline")
+			c.NoBlock = rapid.Bool().Draw(t, "noblock")
+			c.NAsGap = c.Cmd == "dedup" && rapid.Bool().Draw(t, "nasgap")
+			one := func() []gen.Row {
+				if c.Cmd == "dedup" {
+					rows := genRows(t, c.Alphabet, false, 6, 12)
+					if rapid.IntRange(0, 5).Draw(t, "long") == 0 { // beyond the Phylip line width
+						pad := gen.SeqN(t, "AC", rapid.SampledFrom([]int{49, 50, 51, 60, 61, 125}).Draw(t, "pad"))
+						for i := range rows {
+							rows[i].Seq += pad
+						}
+					}
+					return rows
+				}
+				chars := "AC"
+				if c.Alphabet == "aa" {
+					chars = "EQ-X"
+				}
+				return genPatterns(t, chars, 5, rapid.SampledFrom([]int{3, 14, 14, 70, 130}).Draw(t, "maxlen")).Rows
+			}
+			c.Rows = one()
+			for k := rapid.IntRange(1, 2).Draw(t, "extra"); k > 0; k-- {
+				c.Extra = append(c.Extra, one())
 			}
 			return c
 		}
@@ -1086,11 +1119,26 @@ func TestCLI(t *testing.T) {
 			c.Rows = c.BigC.ali().Rows
 			o.Class("large:compress sites>=1023")
 		}
-		in := cli.TempFile(dir, ".fa", cli.Fasta(c.Rows))
+		alis := append([][]gen.Row{c.Rows}, c.Extra...)
+		multi := len(c.Extra) > 0
+		input := cli.Fasta(c.Rows)
+		if multi {
+			input = phylipText(alis)
+		}
+		in := cli.TempFile(dir, ".in", input)
 		logf := cli.TempFile(dir, ".log", "")
 		outf := cli.TempFile(dir, ".out", "")
 		defer func() { os.Remove(in); os.Remove(logf); os.Remove(outf) }()
 		args := []string{c.Cmd, "-i", in}
+		if multi {
+			args = append(args, "-p")
+			if c.OneLine {
+				args = append(args, "--one-line")
+			}
+			if c.NoBlock {
+				args = append(args, "--no-block")
+			}
+		}
 		if c.Cmd == "dedup" {
 			if c.Unaligned {
 				args = append(args, "--unaligned")
@@ -1122,7 +1170,7 @@ func TestCLI(t *testing.T) {
 			return o, nil
 		}
 		if r.Exit != 0 {
-			return o, fmt.Errorf("goalign %v: exit %d, stderr %q\n input: %s", args, r.Exit, r.Stderr, showRows(c.Rows))
+			return o, fmt.Errorf("goalign %v: exit %d, stderr %q\n input: %q", args, r.Exit, r.Stderr, trunc(input, 600))
 		}
 		out := r.Stdout
 		if c.ToFile {
@@ -1132,78 +1180,197 @@ func TestCLI(t *testing.T) {
 				return o, fmt.Errorf("goalign %v: -o given but standard output is not empty: %q", args, r.Stdout)
 			}
 		}
-		got, perr := cli.ParseFasta(out)
-		if perr != nil {
-			return o, fmt.Errorf("goalign %v: unreadable output: %v", args, perr)
+		// one output block per input alignment
+		var blocks [][]gen.Row
+		if multi {
+			var perr error
+			if blocks, perr = parsePhylipMulti(out); perr != nil {
+				return o, fmt.Errorf("goalign %v: unreadable Phylip output: %v\n output: %q", args, perr, trunc(out, 600))
+			}
+		} else {
+			got, perr := cli.ParseFasta(out)
+			if perr != nil {
+				return o, fmt.Errorf("goalign %v: unreadable output: %v", args, perr)
+			}
+			blocks = [][]gen.Row{got}
 		}
+		if len(blocks) != len(alis) {
+			return o, fmt.Errorf("goalign %v: %d alignments written for %d alignments read\n output: %q", args, len(blocks), len(alis), trunc(out, 600))
+		}
+		// the log / weight file: lines, every one of them ended by a newline
 		lb, _ := os.ReadFile(logf)
 		var lines []string
-		for _, l := range strings.Split(string(lb), "\n") {
-			if l != "" {
-				lines = append(lines, l)
+		if len(lb) > 0 {
+			if lb[len(lb)-1] != '\n' {
+				return o, fmt.Errorf("goalign %v: the last line of the log/weight file is not ended by a newline: %q", args, trunc(string(lb), 300))
 			}
+			lines = strings.Split(string(lb[:len(lb)-1]), "\n")
 		}
 		if !c.WithLog && len(lines) > 0 {
 			return o, fmt.Errorf("harness: log file written without being asked for")
 		}
-		if c.Cmd == "dedup" {
-			var groups [][]string
-			for _, l := range lines {
-				groups = append(groups, strings.Split(l, ","))
+		// each alignment's share of the lines: as many as it has rows (dedup) / columns (compress) left
+		if c.WithLog {
+			want := 0
+			for _, b := range blocks {
+				if c.Cmd == "dedup" {
+					want += len(b)
+				} else if len(b) > 0 {
+					want += len(b[0].Seq)
+				}
 			}
-			if !c.WithLog {
-				// only the rows are observable: take the groups of the reading that matches them
-				groups = nil
+			if want != len(lines) {
+				what := "rows kept"
+				if c.Cmd == "compress" {
+					what = "compressed columns"
+				}
+				return o, fmt.Errorf("goalign %v: %d lines in the log/weight file for %d %s in %d alignment(s): %q", args, len(lines), want, what, len(blocks), trunc(string(lb), 300))
 			}
-			mode := "auto"
-			if c.AlphaFlag == "nt" || c.AlphaFlag == "aa" {
-				mode = c.AlphaFlag
-			}
-			wilds, open := readingsFor(mode, c.Rows, c.NAsGap)
-			if c.WithLog && groups == nil {
-				groups = [][]string{}
-			}
-			if err = judgeDedup(&o, c.Rows, wilds, got, groups); err != nil {
-				return o, fmt.Errorf("goalign %v: %v\n input: %s", args, err, showRows(c.Rows))
-			}
-			classifyDedup(&o, c.Rows, c.NAsGap, wilds[0])
-			o.Class("dedup:nasgap=%v,alphabet-flag=%q", c.NAsGap, c.AlphaFlag)
-			if open {
-				o.Class("wildcard-open(unaligned=%v)", c.Unaligned)
-			}
-			o.Class("dedup:unaligned=%v,nasgap=%v", c.Unaligned, c.NAsGap)
-		} else {
+		}
+		next := 0
+		for k, rows := range alis {
+			got := blocks[k]
+			var mine []string
 			if c.WithLog {
-				weights := make([]int, len(lines))
-				for i, l := range lines {
-					if weights[i], err = strconv.Atoi(l); err != nil {
-						return o, fmt.Errorf("goalign %v: weight file line %q", args, l)
+				n := len(got)
+				if c.Cmd == "compress" && len(got) > 0 {
+					n = len(got[0].Seq)
+				}
+				mine = lines[next : next+n]
+				next += n
+			}
+			where := ""
+			if multi {
+				where = fmt.Sprintf(" (alignment %d of %d)", k+1, len(alis))
+			}
+			if c.Cmd == "dedup" {
+				var groups [][]string // nil: only the rows are observable
+				if c.WithLog {
+					groups = [][]string{}
+					for _, l := range mine {
+						groups = append(groups, strings.Split(l, ","))
 					}
 				}
-				if err = judgeCompress(c.Rows, got, weights); err != nil {
-					return o, fmt.Errorf("goalign %v: %v\n input: %s\n output: %s weights %v", args, err, showRows(c.Rows), showRows(got), weights)
+				mode := "auto"
+				if c.AlphaFlag == "nt" || c.AlphaFlag == "aa" {
+					mode = c.AlphaFlag
+				}
+				wilds, open := readingsFor(mode, rows, c.NAsGap)
+				if err = judgeDedup(&o, rows, wilds, got, groups); err != nil {
+					return o, fmt.Errorf("goalign %v%s: %v\n input: %s", args, where, err, showRows(rows))
+				}
+				if k == 0 {
+					classifyDedup(&o, rows, c.NAsGap, wilds[0])
+					o.Class("dedup:nasgap=%v,alphabet-flag=%q", c.NAsGap, c.AlphaFlag)
+					if open {
+						o.Class("wildcard-open(unaligned=%v)", c.Unaligned)
+					}
+					o.Class("dedup:unaligned=%v,nasgap=%v", c.Unaligned, c.NAsGap)
 				}
 			} else {
-				// without the weight file: the set of patterns, each once, names and order
-				weights := make([]int, 0)
-				cnt := map[string]int{}
-				for _, col := range columnsOf(c.Rows) {
-					cnt[col]++
+				var weights []int
+				if c.WithLog {
+					for _, l := range mine {
+						w, aerr := strconv.Atoi(l)
+						if aerr != nil || w < 1 || strconv.Itoa(w) != l {
+							return o, fmt.Errorf("goalign %v%s: weight file line %q is not a positive integer", args, where, l)
+						}
+						weights = append(weights, w)
+					}
+				} else {
+					// without the weight file: the set of patterns, each once, names and order
+					cnt := map[string]int{}
+					for _, col := range columnsOf(rows) {
+						cnt[col]++
+					}
+					if len(got) != len(rows) {
+						return o, fmt.Errorf("goalign %v%s: %d rows written for %d", args, where, len(got), len(rows))
+					}
+					for _, col := range columnsOf(got) {
+						weights = append(weights, cnt[col])
+					}
 				}
-				if len(got) != len(c.Rows) {
-					return o, fmt.Errorf("goalign %v: %d rows written for %d", args, len(got), len(c.Rows))
+				if err = judgeCompress(rows, got, weights); err != nil {
+					return o, fmt.Errorf("goalign %v%s: %v\n input: %s\n output: %s weights %v", args, where, err, showRows(rows), showRows(got), weights)
 				}
-				for _, col := range columnsOf(got) {
-					weights = append(weights, cnt[col])
-				}
-				if err = judgeCompress(c.Rows, got, weights); err != nil {
-					return o, fmt.Errorf("goalign %v: %v\n input: %s\n output: %s", args, err, showRows(c.Rows), showRows(got))
+				if k == 0 {
+					classifyCompress(&o, rows)
+					o.Class("compress")
 				}
 			}
-			classifyCompress(&o, c.Rows)
-			o.Class("compress")
+		}
+		if multi {
+			o.Class("multi-alignment-phylip:%s,n=%d,log=%v", c.Cmd, len(alis), c.WithLog)
 		}
 		o.Class("log=%v,tofile=%v", c.WithLog, c.ToFile)
 		return o, nil
 	})
+}
+
+func trunc(s string, n int) string {
+	if len(s) > n {
+		return s[:n] + "..."
+	}
+	return s
+}
+
+// phylipText: sequential, one line per row, one alignment after the other
+func phylipText(alis [][]gen.Row) string {
+	var sb strings.Builder
+	for _, rows := range alis {
+		fmt.Fprintf(&sb, " %d %d\n", len(rows), len(rows[0].Seq))
+		for _, r := range rows {
+			sb.WriteString(r.Name + "  " + r.Seq + "\n")
+		}
+	}
+	return sb.String()
+}
+
+// parsePhylipMulti: an independent, minimal reader of relaxed Phylip holding several alignments,
+// sequential or interleaved, with or without blanks inside the residues: a header "n L", n lines
+// "name residues...", then residue lines given to the rows in turn until every row has L residues
+func parsePhylipMulti(s string) ([][]gen.Row, error) {
+	var out [][]gen.Row
+	var lines []string
+	for _, l := range strings.Split(s, "\n") {
+		if strings.TrimSpace(l) != "" {
+			lines = append(lines, l)
+		}
+	}
+	i := 0
+	for i < len(lines) {
+		h := strings.Fields(lines[i])
+		if len(h) != 2 {
+			return nil, fmt.Errorf("header expected, got %q", lines[i])
+		}
+		n, e1 := strconv.Atoi(h[0])
+		l, e2 := strconv.Atoi(h[1])
+		if e1 != nil || e2 != nil || n < 1 || l < 1 {
+			return nil, fmt.Errorf("header expected, got %q", lines[i])
+		}
+		i++
+		rows := make([]gen.Row, n)
+		for k := 0; k < n; k++ {
+			if i >= len(lines) {
+				return nil, fmt.Errorf("%d rows announced, %d found", n, k)
+			}
+			f := strings.Fields(lines[i])
+			rows[k] = gen.Row{Name: f[0], Seq: strings.Join(f[1:], "")}
+			i++
+		}
+		for k := 0; len(rows[n-1].Seq) < l; k++ {
+			if i >= len(lines) {
+				return nil, fmt.Errorf("row %q has %d residues of %d", rows[n-1].Name, len(rows[n-1].Seq), l)
+			}
+			rows[k%n].Seq += strings.Join(strings.Fields(lines[i]), "")
+			i++
+		}
+		for _, r := range rows {
+			if len(r.Seq) != l {
+				return nil, fmt.Errorf("row %q has %d residues, header says %d", r.Name, len(r.Seq), l)
+			}
+		}
+		out = append(out, rows)
+	}
+	return out, nil
 }
